@@ -134,8 +134,11 @@ def moral_rules(rep, prog):
         why = "iter=%s stores=%s base=%s" % (fmt(li["iter"]), sorted(fmt(x) for x in idxs), [fmt(v) for v in li["init"].values()])
         rets = S.select("return", qname=q)
         ok = ok and len(rets) == 1 and rets[0].value == ("after", lid, li["changed"][0])
-    rep.check("MORAL.marry", ok, fwhere(f), "moral = skeleton(A) with [i, j] = [j, i] = 1 for the outer nodes of every v-structure",
-              "moral graph is not skeleton + married parents: " + why)
+    if not ok and why == "loop over vstructures(A) not found":
+        rep.unk("MORAL.marry", fwhere(f), "moral_graph is not a loop over vstructures(A) that marries the outer nodes: this form is not read")
+    else:
+        rep.check("MORAL.marry", ok, fwhere(f), "moral = skeleton(A) with [i, j] = [j, i] = 1 for the outer nodes of every v-structure",
+                  "moral graph is not skeleton + married parents: " + why)
 
 
 def run(prog, rep, tier):
